@@ -320,6 +320,109 @@ func c29(x *Ctx) {
 		c.Decide(hasApply && hasExpand, r5, "validateConfigs/same-steps", x.PosOf(vf.Pos()), "validation applies flags/env and expansion before checking", "validateConfigs does not apply the flag/env overrides and ${VAR} expansion that applyConfigInto applies: what is validated is not what is used")
 	}
 	c.Min(r5, 2)
+
+	// ---- every step runs on every successful load ----------------------------------------------------------------
+	const r6 = "C29.pipeline-unconditional"
+	if af := x.P.Func("config", "", "applyConfigInto"); af != nil && af.Blocks != nil {
+		for _, step := range steps {
+			c.Examined++
+			// (the rules files are loaded without options: with opts == nil only the load step is due)
+			optsP := param(af, "opts")
+			withOpts := &eng.Assume{Nil: func(v ssa.Value) eng.Tri {
+				if optsP != nil && v == ssa.Value(optsP) {
+					return eng.False
+				}
+				return eng.Unknown
+			}}
+			r := eng.Explore(eng.Query{Fn: af, Assume: withOpts, TrackPhi: func(*ssa.Phi) bool { return true }, Classify: func(in ssa.Instruction, _ eng.Facts) eng.Event {
+				if _, ok := eng.IsCall(in, step); ok {
+					return eng.EvSink
+				}
+				return eng.EvNone
+			}})
+			bad := false
+			for _, e := range r.Exits {
+				ret, isRet := e.Instr.(*ssa.Return)
+				if !isRet || len(ret.Results) == 0 || e.Sinks > 0 {
+					continue
+				}
+				// a return that reports an error may stop early
+				if e.Facts.Nil(e.Facts.Resolve(ret.Results[len(ret.Results)-1])) == eng.False {
+					continue
+				}
+				bad = true
+			}
+			c.Decide(!bad, r6, "applyConfigInto/"+eng.MethodBase(step), x.PosOf(af.Pos()), "runs on every successful load",
+				"applyConfigInto can succeed without running "+step+" (the step is skipped under some condition): e.g. ${VAR} references in values that came from flags or REFINERY_* variables stay literal although validation saw them expanded")
+		}
+	}
+	c.Min(r6, 4)
+
+	// ---- files are merged in the order of their locations ---------------------------------------------------------
+	const r7 = "C29.locations-in-order"
+	if gl := x.P.Func("config", "", "getConfigDataForLocations"); gl != nil && gl.Blocks != nil {
+		c.Examined++
+		bad := ""
+		for _, g := range eng.WithAnon(gl) {
+			eng.Instrs(g, func(in ssa.Instruction) {
+				if _, isGo := in.(*ssa.Go); isGo {
+					bad = "a goroutine is started at " + x.Pos(in)
+				}
+			})
+		}
+		// the result slice grows inside the loop over the locations, in the loop's own goroutine
+		appendInLoop := false
+		eng.Instrs(gl, func(in ssa.Instruction) {
+			if cl, ok := in.(*ssa.Call); ok {
+				if b, ok := cl.Call.Value.(*ssa.Builtin); ok && b.Name() == "append" && loopHeader(in) != nil {
+					appendInLoop = true
+				}
+			}
+		})
+		if bad == "" && !appendInLoop {
+			bad = "the results are not appended inside the loop over the locations"
+		}
+		c.Decide(bad == "", r7, "getConfigDataForLocations", x.PosOf(gl.Pos()), "locations are read one after the other and appended in that order",
+			"the configuration sources are not collected strictly in the order of the configured locations ("+bad+"): 'later files override earlier ones' then depends on which source answers first")
+	}
+
+	// ---- a flag / environment value replaces what the files said ------------------------------------------------------
+	const r8 = "C29.override-replaces"
+	if at := x.P.Func("config", "", "applyCmdEnvTags"); at != nil && at.Blocks != nil {
+		// from the point where a non-empty override value passed the type check, the field is Set on every path
+		// that goes on to the next field (errors may return)
+		var typeCmp ssa.Instruction
+		eng.Instrs(at, func(in ssa.Instruction) {
+			if cl, ok := in.(*ssa.Call); ok && eng.CalleeName(cl) == "(reflect.Value).Type" && typeCmp == nil {
+				// value.Type() – the type agreement test follows it
+				if loopHeader(in) != nil {
+					typeCmp = in
+				}
+			}
+		})
+		if typeCmp == nil {
+			c.Undecided(r8, "applyCmdEnvTags", x.PosOf(at.Pos()), "cannot find the point where an override value has been accepted")
+		} else {
+			c.Examined++
+			inner := loopHeader(typeCmp)
+			// the loop over the struct's fields is the enclosing loop of the tag loop
+			r := eng.Explore(eng.Query{Fn: at, Start: typeCmp, Classify: func(in ssa.Instruction, _ eng.Facts) eng.Event {
+				if _, ok := eng.IsCall(in, "(reflect.Value).Set"); ok {
+					return eng.EvKill
+				}
+				// leaving the tag loop towards the recursion into the field = done with this field
+				if cl, ok := in.(*ssa.Call); ok && cl.Call.StaticCallee() == at {
+					return eng.EvSink
+				}
+				if inner != nil && in == inner.Instrs[0] {
+					return eng.EvKill // next tag of the same field: judged again from there
+				}
+				return eng.EvNone
+			}})
+			c.Decide(len(r.Hits) == 0, r8, "applyCmdEnvTags", x.Pos(typeCmp), "an accepted override value is Set on the field on every path",
+				"after a flag / environment value for a field has been found and type-checked, a path finishes the field without Set-ting it (e.g. the value is merged into what the file had): the file then wins over the command line or the environment for that field")
+		}
+	}
 }
 
 func splitList(s string) []string {
